@@ -28,7 +28,7 @@ if [ -z "$SKIP_CONFIRM" ]; then
 fi
 echo "== static checks on the mutated tree"
 props="$@"
-if [ -z "$props" ]; then props=$(/verif/bin/dhtlint -gen-manifest | python3 -c "import json,sys; print(' '.join(c['property_id'] for c in json.load(sys.stdin)['checks']))"); fi
-for p in $props; do ( /verif/bin/dhtlint -repo $wt -property $p -tier quick -no-evidence > /tmp/confirm_$$.$p.txt 2>&1; echo "exit=$?" >> /tmp/confirm_$$.$p.txt ) & done; wait
+if [ -z "$props" ]; then props=$(${DHTLINT:-/verif/bin/dhtlint} -gen-manifest | python3 -c "import json,sys; print(' '.join(c['property_id'] for c in json.load(sys.stdin)['checks']))"); fi
+for p in $props; do ( ${DHTLINT:-/verif/bin/dhtlint} -repo $wt -property $p -tier quick -no-evidence > /tmp/confirm_$$.$p.txt 2>&1; echo "exit=$?" >> /tmp/confirm_$$.$p.txt ) & done; wait
 for p in $props; do grep -E "^(VIOLATION|BROKEN)|^C[0-9][0-9] (PASS|VIOLATED|BROKEN)" /tmp/confirm_$$.$p.txt | grep -v " PASS " | cut -c1-500; done
 echo "== done"
